@@ -47,6 +47,28 @@ inline void check_const_pointer_modification(Interpreter &interpreter,
 }
 
 /**
+ * const T* の値を T* に変換（初期化・代入・引数渡し）することを禁止する。
+ * 変換を許すと `const int* p = &d; int* q = p; *q = 9;` のように
+ * const T* の保護をコピー1回で外せてしまう。逆方向 (T* -> const T*) と
+ * const T* -> const T* は許可。
+ * target_desc: エラーメッセージ用の変換先の説明（例: "variable 'q'"）
+ */
+inline void check_pointer_const_conversion(Interpreter &interpreter,
+                                           const ASTNode *source_expr,
+                                           bool target_is_pointee_const,
+                                           const std::string &target_desc) {
+    if (!target_is_pointee_const &&
+        is_pointer_to_const_expression(interpreter, source_expr)) {
+        throw std::runtime_error(
+            "Cannot convert pointer to const (const T*) to pointer to "
+            "non-const (T*) for " +
+            target_desc +
+            ": discards const qualifier from pointed-to type. Declare it "
+            "as 'const T*'");
+    }
+}
+
+/**
  * ポインタの指し先が const 構造体の場合、ptr->member = value や
  * (*ptr).member = value を禁止する（スカラーの *ptr = value と同じ規則）。
  * f(&const_struct) のように const T* でないパラメータに渡された場合も、
